@@ -711,7 +711,7 @@ def case_ww3station(ws, rng, tmp, res, tier):
     if rng.random() < 0.85:
         okind, perm = "sorted", list(range(nt))
     names = ["44097", "NZ_0001"]
-    pos = [(round(rng.uniform(-60, 60), 2), round(rng.uniform(-179, 179), 2)) for _ in range(nloc)]
+    pos = [(round(rng.uniform(-60, 60), 2), round(rng.uniform(-179, 179) if rng.random() < 0.5 else rng.uniform(0.5, 359.5), 2)) for _ in range(nloc)]
     recs = []
     for k in range(nt):
         st = []
